@@ -38,6 +38,10 @@ func VerifyFunc(P *Program, fn *ssa.Function, spec *FuncSpec, prop string) (ex *
 	}()
 	ex.numberSites(fn)
 	st := &State{cells: map[*ssa.Alloc]*Val{}, regs: map[ssa.Value]*Val{}, heap: map[string]*Term{}, loops: map[string]*loopVisit{}, held: map[string]bool{}, locks: map[string]int{}, ghost: map[string]*Val{}, defers: map[int][]deferRec{}}
+	if spec != nil && spec.UnderLock != "" {
+		// the caller holds the monitor lock for the whole call (obligation at every call site)
+		st.held[spec.UnderLock] = true
+	}
 	alloc0 := ex.allocArr(st)
 	st.assume(Not(Select(alloc0, IntLit(0))))
 	fr := &Frame{id: 0, fn: fn, spec: spec, subst: ex.env.subst}
@@ -181,6 +185,7 @@ func (ex *Exec) specCtx(st *State, old *State, fr *Frame) *SpecCtx {
 	if fr != nil && fr.id == 0 {
 		for n, v := range ex.entryVals {
 			c.names[n] = &SV{V: v, T: ex.paramTypes[n]}
+			c.names[n+"0"] = c.names[n]
 		}
 		for n, v := range ex.ghostVals {
 			c.names[n] = v
@@ -694,7 +699,25 @@ func (ex *Exec) step(st *State, fr *Frame, in ssa.Instruction, b *ssa.BasicBlock
 		st.defers[fr.id] = append(append([]deferRec(nil), st.defers[fr.id]...), rec)
 		return nil
 	case *ssa.Go:
-		// the spawned function is verified on its own
+		// the spawned function is verified on its own, as another thread: here only its
+		// precondition (if it has a contract) is an obligation
+		if callee := x.Call.StaticCallee(); callee != nil {
+			o := callee
+			if og := callee.Origin(); og != nil {
+				o = og
+			}
+			if cs := ex.P.Specs.Funcs[funcKey(o)]; cs != nil {
+				var args []*Val
+				for _, a := range x.Call.Args {
+					args = append(args, ex.val(st, a))
+				}
+				ex.preOnly = true
+				func() {
+					defer func() { ex.preOnly = false }()
+					ex.callContract(st, fr, cs, callee.Signature, callee, args, x)
+				}()
+			}
+		}
 		return nil
 	case *ssa.Send:
 		return nil
@@ -1012,7 +1035,11 @@ func (ex *Exec) doReturn(st *State, fr *Frame, rs []*Val, in ssa.Instruction) {
 	if !spec.NoFrame {
 		ex.checkFrame(st, fname+"/frame")
 	}
-	if len(st.held) > 0 {
+	if spec.UnderLock != "" && fr.id == 0 {
+		if !st.held[spec.UnderLock] {
+			ex.check(st, "lock", fname+"/lock:kept", TFalse, "returns without the caller's lock "+spec.UnderLock, ex.pos(in))
+		}
+	} else if len(st.held) > 0 {
 		var hs []string
 		for h := range st.held {
 			hs = append(hs, h)
